@@ -353,6 +353,20 @@ func afterBlockGov(s *scn, h uint64, txs []*pb.BxhTransaction, metas []*txMeta, 
 			}
 		}
 	}
+	// "an appchain, service, role or node that was logged out never becomes usable again": a governance operation
+	// submitted by an account whose role was logged out (forbidden before and after the block) must be refused
+	for i, mt := range metas {
+		if mt.kind != "gov" || mt.sender == nil || i >= len(ref.Receipts) || s.inSetup || strings.HasSuffix(mt.note, "/withdraw") {
+			continue // (withdrawing a proposal is the sponsor's business whatever became of its role)
+		}
+		k := "role:" + mt.sender.Addr.String()
+		if prevSt[k] == "forbidden" && curSt[k] == "forbidden" {
+			s.res.Count("probe_operation_by_logged_out_role")
+			if ref.Receipts[i].Status == pb.Receipt_SUCCESS {
+				s.vio("C16", "logged-out-role-still-usable", strings.Split(mt.note, "/")[len(strings.Split(mt.note, "/"))-1], "block %d tx %d: operation %s submitted by %s succeeded although that role was logged out (status forbidden)", h, i, mt.note, mt.sender.Addr.String())
+			}
+		}
+	}
 	// a proposal concluded in this block for whatever reason (votes, a change of the electorate, a higher-priority
 	// proposal) is "its approval or rejection" for the object it governs
 	for _, id := range gm.open {
